@@ -57,7 +57,7 @@ def run(ctx):
     def outcome(prefix, o, e):
         e['k' + prefix], e['t' + prefix], e['b' + prefix], e['c' + prefix] = o['k'], o['t'], o['b'], o['c']
         if 'detail' in o:
-            e['detail'] = o['detail']
+            e.setdefault('detail', o['detail'])
 
     def binop(op, x, y, text, xtext=None, ytext=None):
         if text:
